@@ -57,6 +57,53 @@ Definition normalize_string (o : nopts) (s : string) : res value :=
        | inr _ => Err EOther ""            (* raiseParseSplice: reason is the parser's plain error *)
        end.
 
+(* duplicateSetting: the first setting (dictionary in sorted order, then the list by index) that
+   two spellings of one namespace both define with a value other than a namespace or nil *)
+Fixpoint dup_setting (sep : string) (prefix : string) (a b : value) {struct b} : option string :=
+  match a, b with
+  | VSub da aa, VSub db ab =>
+    match
+      (fix gd (l : list (string * (string * value))) : option string :=
+         match l with
+         | [] => None
+         | (k, (_, vb)) :: r =>
+           match dict_get k da with
+           | Some (_, va) =>
+             let name := prefix +++ sep +++ k in
+             let here :=
+                 if is_nil (Some va) || is_nil (Some vb) then None
+                 else match va, vb with
+                      | VSub _ _, VSub _ _ => dup_setting sep name va vb
+                      | _, _ => Some name
+                      end in
+             match here with Some d => Some d | None => gd r end
+           | None => gd r
+           end
+         end) db
+    with
+    | Some d => Some d
+    | None =>
+      match ab with
+      | None => None
+      | Some lb =>
+        (fix ga (i : Z) (la : list (string * value)) (l : list (string * value)) {struct l} : option string :=
+           match la, l with
+           | (_, va) :: ra, (_, vb) :: r =>
+             let name := prefix +++ sep +++ dec i in
+             let here :=
+                 if is_nil (Some va) || is_nil (Some vb) then None
+                 else match va, vb with
+                      | VSub _ _, VSub _ _ => dup_setting sep name va vb
+                      | _, _ => Some name
+                      end in
+             match here with Some d => Some d | None => ga (i + 1) ra r end
+           | _, _ => None
+           end) 0 (arr_of aa) lb
+      end
+    end
+  | _, _ => None
+  end.
+
 (* normalizeSetField on an already normalized value *)
 Definition set_field_norm (o : nopts) (cfg : value) (name : string) (ov : option string) (val : value)
   : res value :=
@@ -72,7 +119,12 @@ Definition set_field_norm (o : nopts) (cfg : value) (name : string) (ov : option
   else if is_nil old then set_path (p_maxIdx (n_p o)) p "" cfg ov val
   else match old, val with
        | Some (VSub d a), VSub d2 a2 =>
-         (* both are sub-configs: merged silently (with the options of the call) *)
+         (* both are sub-configs: two spellings of one namespace are folded together (with the
+            options of the call) unless they define one setting twice *)
+         _ <- match dup_setting (if String.eqb (p_sep (n_p o)) "" then "." else p_sep (n_p o)) name (VSub d a) (VSub d2 a2) with
+              | Some dn => Err EDuplicateKey (path_of "" dn)
+              | None => Ok tt
+              end ;;
          m <- merge_full (n_m o) (Some (VSub d a)) (VSub d2 a2) ;;
          (fix put (fs : list field) (pp : string) (node : value) : res value :=
             match fs with
